@@ -678,21 +678,37 @@ func c10RunCaseOnce(f []string) (res string) {
 			sm.mu.RLock()
 			fin := make(chan struct{})
 			go func() { n.m.handleInterfaceEvent(events.Event{Data: ev}); close(fin) }()
-			for {
+			entered := false
+			for !entered {
+				select {
+				case <-fin:
+					// the call returned without entering AdjustPriority (a notification that does not change the
+					// down count may be coalesced): nothing to probe
+					fin = nil
+				default:
+				}
+				if fin == nil {
+					break
+				}
 				if !sm.mu.TryRLock() {
+					entered = true
 					break
 				}
 				sm.mu.RUnlock()
 				runtime.Gosched()
 			}
-			if n.m.mu.TryLock() {
-				n.m.mu.Unlock()
-				sink = append(sink, n.who()+":mu=free")
-			} else {
-				sink = append(sink, n.who()+":mu=held")
+			if entered {
+				if n.m.mu.TryLock() {
+					n.m.mu.Unlock()
+					sink = append(sink, n.who()+":mu=free")
+				} else {
+					sink = append(sink, n.who()+":mu=held")
+				}
 			}
 			sm.mu.RUnlock()
-			<-fin
+			if fin != nil {
+				<-fin
+			}
 		case "rl":
 			n.releaseParked(o)
 		default:
